@@ -208,6 +208,13 @@ def _w1(ctx: Context, counter_sites) -> None:
                         else:
                             why = ("outside the class" if not recv_self else f"in {g.name}, which is not the method that uses it as a nonce"
                                    if g.qualname not in own and g.name != "__init__" else "not `= 0` in __init__ / `+= 1` in the owner")
+                        if not ok and recv_self and g.qualname in own and op == "=" and not isinstance(ctx.const(g, val, None), int):
+                            # the owner stores a computed value: the counter threaded through a local (`counter += 1` per message) and
+                            # written back.  Whether that value is "the old counter plus the number of messages sealed" is a fact
+                            # about values along the loop that this rule does not compute: not decided (C06.G1 says the same)
+                            ck.unknown("C06.W1", f"{k[0].rsplit('.', 1)[-1]}.{k[1]} is written back by `{stmt}` in {g.name} (its owner) from a computed value: "
+                                                 "the counter is threaded through a local - not decided", loc)
+                            continue
                         ck.check(
                             "C06.W1",
                             ok,
@@ -237,6 +244,29 @@ def _g1(ctx: Context, counter_sites) -> None:
         incs = [m for m in cfg.nodes if m.kind == "stmt" and isinstance(m.ast, ast.AugAssign) and _u(m.ast.target) == f"self.{ctr}"
                 and isinstance(m.ast.op, ast.Add) and ctx.const(f, m.ast.value, None) == 1]
         inc_ids = {m.id for m in incs}
+        # the counter threaded through a local: `counter = self.c2a_counter` .. `PACK_NONCE(counter)`; `counter += 1` .. and a
+        # write-back.  The nonce is then a value computed from the attribute, several definitions of it merge at the loop
+        # head; the obligations below are stated for the attribute form (`PACK_NONCE(self.ctr)`; `self.ctr += 1`) and do
+        # not decide this one.  (A nonce packed from the attribute itself while only a local advances IS the attribute
+        # form, and is reported by the increment check below.)
+        T0 = ctx.terms
+        packs0 = [a for a in (T0.of(cfg, n, x) for x in c.args) if _is_pack(a) and a[2]]
+        ctr_attr = ("attr", ("param", "self"), ctr)
+        if packs0 and not any(strip_sites(a[2][-1]) == ctr_attr for a in packs0) and any(
+                contains(strip_sites(a[2][-1]), lambda s_: s_ == ctr_attr) for a in packs0):
+            from ._counter import advance_mismatch
+
+            mm = advance_mismatch(ctx, f, cfg, T0, ctr) if kind == "encrypt" and f.name == "send_bytes" else None
+            if mm is not None:
+                ck.violated("C06.G1", f"{ctx.fkey(f)}:reserved-nonces-differ-from-frames:{ctr}",
+                            f"{f.qualname.rsplit('.', 2)[-2]}.{f.name} advances {ctr} once per request by `{mm[0].text()[:70]}`: for a request of {mm[1]} bytes that is {mm[2]}, but "
+                            f"{mm[3]} message(s) are sealed - the next request starts at a counter that was already used (nonce reuse) or skips one", ctx.loc(f, mm[0]), None,
+                            "the counter advances by the number of messages sealed")
+            else:
+                ck.unknown("C06.G1", f"{f.qualname.rsplit('.', 2)[-2]}.{f.name}: the nonce of the {kind} is packed from a local that is computed from self.{ctr} "
+                                     "(the counter is threaded through a local and written back): use / increment pairing over values is not decided", ctx.loc(f, n))
+            done += 1
+            continue
         other_calls = {x[2].id for x in counter_sites if x[0] is f and x[4] == ctr}
         stops = {cfg.exit.id} | other_calls
         for m in cfg.nodes:
@@ -406,6 +436,11 @@ def _t2(ctx: Context) -> None:
                     found[r].append((f, x))
     for cls, sites in found.items():
         short = cls.rsplit(".", 1)[-1]
+        if not sites:
+            # no call that names the class: it is built through a factory that receives the class as a value
+            # (`self._make(SecureHomeKitProtocol, ..)`); where its keys come from is then not read here
+            ck.unknown("C06.T2", f"{short} is not constructed by a call that names it (a factory receives the class?): the origin of its keys is not decided", "")
+            continue
         ck.check("C06.T2", len(sites) == 1, f"{short} is constructed at exactly one site", f"{cls}:ctor-sites",
                  f"{short} is constructed at {len(sites)} sites ({[s[0].qualname.split('.', 1)[1] for s in sites]}): a session object could be rebuilt with old keys", "")
         for f, call in sites:
@@ -543,10 +578,20 @@ def _g2(ctx: Context) -> None:
     enc = [n for n in pcfg.nodes if n.kind == "stmt" and isinstance(n.ast, ast.Assign) and _u(n.ast.targets[0]) == "self._encryption_key"]
     dec = {n.id for n in pcfg.nodes if n.kind == "stmt" and isinstance(n.ast, ast.Assign) and _u(n.ast.targets[0]) == "self._decryption_key"}
     okb = bool(enc) and bool(dec)
-    for e in enc:
-        for ed in ctx.normal_out(pcfg, e):
-            if ed[1] not in dec and pcfg.find_path(ed[1], pcfg.exit.id, avoid_nodes=dec, edge_ok=lambda u, d, l, x: l != "x") is not None:
-                okb = False
+    encs = {n.id for n in enc}
+
+    def _paired(first_nodes, other: set) -> bool:
+        """each store of one key is followed by a store of the other before the function can return (in whichever order the two are written)"""
+        for e in first_nodes:
+            for ed in ctx.normal_out(pcfg, e):
+                if ed[1] not in other and pcfg.find_path(ed[1], pcfg.exit.id, avoid_nodes=other, edge_ok=lambda u, d, l, x: l != "x") is not None:
+                    return False
+        return True
+
+    dec_nodes = [pcfg.nodes[i] for i in dec]
+    # the key written first must be followed by the other one; which of the two comes first is free
+    if okb and not (_paired(enc, dec) or _paired(dec_nodes, encs)):
+        okb = False
     ck.check("C06.G2", okb, "BLE: the two keys are installed together (no await or exit between them)", f"{ctx.fkey(ctx.func(pv))}:keys-together",
              "BLE: the encryption key can be installed without the decryption key", ctx.func(pv).loc())
     # CoAP: giving up raises EncryptionError after shutting down
